@@ -1750,3 +1750,36 @@ def handler_stmt_race_run(prop: str, workload: str, j_sym: Any, k_sym: Any, pick
             finally:
                 HOOKS.on_statement = None
                 w.close()
+
+
+def transient_pair_run(n1_sym: Any, n2_sym: Any, with_ctx: Any = True, max_n: int = 9) -> bool:
+    """Two tasks of one stage, each failing transiently n1 / n2 times (both below the limit) before
+    succeeding: every task has its own budget - both must succeed after exactly n+1 executions and
+    see their own progress."""
+    from vf.native import workflow, stage
+
+    with hx.Path("transient_pair") as P:
+        with hx.native():
+            n1 = hx.pick(n1_sym, max_n + 1)
+            n2 = hx.pick(n2_sym, max_n + 1)
+            w = World()
+            try:
+                tasks = {"t1": {"kind": "transient", "n": n1, "ctx": with_ctx}, "t2": {"kind": "transient", "n": n2, "ctx": with_ctx}}
+                w.submit(workflow([stage("a", tasks=tasks), stage("b", ["a"])]))
+                w.drain(max_steps=500)
+                snap = w.snapshot()
+                P.reached((n1, n2), {"n1": n1, "n2": n2, "workflow": snap["workflow"]})
+                for tname, n in (("t1", n1), ("t2", n2)):
+                    execs = [e for e in w.ledger.entries if e["ref"] == "a" and e["task"] == tname]
+                    info = {"failures": {"t1": n1, "t2": n2}, "task": tname, "executions": len(execs), "expected": n + 1, "workflow": snap["workflow"], "tasks": snap["stages"]["a"]["tasks"]}
+                    if len(execs) != n + 1:
+                        return P.fail("C14/transient_pair/%s" % ("gave_up_before_its_own_limit" if len(execs) < n + 1 else "too_many_executions"), info)
+                    if with_ctx:
+                        seen = [e.get("progress_seen") for e in execs]
+                        if seen != list(range(len(execs))):
+                            return P.fail("C14/transient_pair/progress_lost", {**info, "progress_seen": seen})
+                if snap["workflow"] != "SUCCEEDED":
+                    return P.fail("C14/transient_pair/not_succeeded_after_recovering", {"failures": {"t1": n1, "t2": n2}, "workflow": snap["workflow"], "tasks": snap["stages"]["a"]["tasks"]})
+                return True
+            finally:
+                w.close()
